@@ -196,6 +196,6 @@ def prop_case(draw, tier):
 
 def parts(tier):
     return [
-        Part("propositions", strategy=lambda t: prop_case(t), check=check_prop, quick=(5, 120), thorough=(10, 2000)),
-        Part("configs", strategy=lambda t: config_case(t), check=check_config, quick=(3, 200), thorough=(6, 3000)),
+        Part("propositions", strategy=lambda t: prop_case(t), check=check_prop, quick=(5, 300), thorough=(10, 2000)),
+        Part("configs", strategy=lambda t: config_case(t), check=check_config, quick=(3, 500), thorough=(6, 3000)),
     ]
